@@ -37,6 +37,89 @@ func checkC14(p *Prog, r *Report) {
 	c14ClusterDispatch(p, r, "C14.cluster-dispatch")
 	c14Subscription(p, r)
 	c14Handoff(p, r)
+	controlConnClosedOnError(p, r, "C14.rejected-conn-closed")
+}
+
+// controlConnClosedOnError: a control connection that was opened (and has registered for events
+// during its handshake) but is then refused - wrong negotiated version, hosts query failed, its
+// host not in the system tables - is closed on every such path.  Left open it keeps feeding events
+// into the cluster: after the fail-over every schema change is delivered twice.
+func controlConnClosedOnError(p *Prog, r *Report, rule string) {
+	r.Rule(rule, "every path of the cluster's connect that returns an error after the connection was opened closes that connection (the deferred clean-up sees the error that is returned); a path that returns nil leaves it open")
+	cl := p.Named("proxycore", "Cluster")
+	var fn *ssa.Function
+	for _, m := range p.methodsOf(cl) {
+		if callsDirectly(m, func(c ssa.CallInstruction) bool { return callIsFunc(c, "proxycore", "ConnectClient") }) {
+			fn = m
+		}
+	}
+	if fn == nil {
+		fatalf("rule %s: the cluster method that opens the control connection was not found", rule)
+	}
+	s := newSim(p)
+	s.Inline = func(f *ssa.Function) bool { return f.Parent() == fn }
+	errPair := func(st *State, call ssa.CallInstruction, okv AV, n int) []*State {
+		okSt, bad := st.clone(), st.clone()
+		switch n {
+		case 1:
+			SetCallResult(okSt, call, AV{K: avNil})
+			SetCallResult(bad, call, AV{K: avNonNil})
+		case 2:
+			SetCallResult(okSt, call, avTup(okv, AV{K: avNil}))
+			SetCallResult(bad, call, avTup(top, AV{K: avNonNil}))
+		case 3:
+			SetCallResult(okSt, call, avTup(okv, top, AV{K: avNil}))
+			SetCallResult(bad, call, avTup(top, top, AV{K: avNonNil}))
+		}
+		return []*State{okSt, bad}
+	}
+	s.Model = func(sm *Sim, st *State, call ssa.CallInstruction, callee *ssa.Function) []*State {
+		if callIsFunc(call, "proxycore", "ConnectClient") {
+			okSt, bad := st.clone(), st.clone()
+			okSt.aux["opened"] = "1"
+			SetCallResult(okSt, call, avTup(avSymbol("conn"), AV{K: avNil}))
+			SetCallResult(bad, call, avTup(AV{K: avNil}, AV{K: avNonNil}))
+			return []*State{okSt, bad}
+		}
+		if callee != nil && callee.Name() == "Close" && recvNamed(callee) != nil && recvNamed(callee).Obj().Name() == "ClientConn" {
+			if a := sm.eval(st, call.Common().Args[0]); a.K == avSym && a.S == "conn" {
+				st.addEff("close")
+			}
+			SetCallResult(st, call, top)
+			return []*State{st}
+		}
+		if callee != nil && callee.Signature.Results().Len() >= 1 && p.InRepo(callee) && callee.Parent() != fn {
+			res := callee.Signature.Results()
+			if types.Identical(res.At(res.Len()-1).Type(), errType) {
+				return errPair(st, call, AV{K: avNonNil}, res.Len())
+			}
+		}
+		return nil
+	}
+	outs := s.Run(fn, newState())
+	r.count("sim_states", s.Nodes)
+	var bad []string
+	nerr := 0
+	for _, o := range outs {
+		if o.Panic || o.St.aux["opened"] != "1" {
+			continue
+		}
+		switch o.Ret.K {
+		case avNil:
+			if o.St.eff["close"] > 0 {
+				bad = append(bad, fmt.Sprintf("the connection is closed although connect succeeds (path ending at %s)", p.Pos(o.Pos)))
+			}
+		case avNonNil:
+			nerr++
+			if o.St.eff["close"] == 0 {
+				bad = append(bad, fmt.Sprintf("connect returns an error at %s but leaves the connection it opened (already registered for events) open: it keeps delivering events to the cluster next to the connection that replaces it, and every schema change reaches the clients twice", p.Pos(o.Pos)))
+			}
+		}
+	}
+	if nerr < 2 {
+		bad = append(bad, fmt.Sprintf("only %d error paths after the connection was opened were found", nerr))
+	}
+	r.check(len(bad) == 0, rule, "Cluster."+fn.Name(), p.Pos(fn.Pos()), fmt.Sprintf("%d error paths after open, each closes the connection", nerr), strings.Join(dedupe(bad), " || "))
 }
 
 // c14Handoff: the hand-over of an event frame from the control connection's reader to the
@@ -754,8 +837,7 @@ func c14Subscription(p *Prog, r *Report) {
 		return nil
 	}
 	s.Model = func(sm *Sim, st *State, call ssa.CallInstruction, callee *ssa.Function) []*State {
-		cm := call.Common()
-		if cm.IsInvoke() && cm.Method.Name() == "ConvertFromRawFrame" {
+		if libDecodeKind(p, call) == "ConvertFromRawFrame" {
 			okSt, bad := st.clone(), st.clone()
 			SetCallResult(okSt, call, avTup(AV{K: avNonNil}, AV{K: avNil}))
 			SetCallResult(bad, call, avTup(AV{K: avNil}, AV{K: avNonNil}))
